@@ -4,6 +4,6 @@ CONSTANTS
   OwnUnion = TRUE
   MaxRewrites = 1
 \* property invariants as CONSTRAINTs before Report (docs/FAMILY_GUIDE.md): a violating recorded state cuts only its own segment
-CONSTRAINT V
+CONSTRAINT VT
 CONSTRAINT Report
 CHECK_DEADLOCK FALSE
